@@ -72,6 +72,15 @@ def load_variants(prop):
                 meta = json.load(open(mp))
                 if prop in meta.get("detected_by", []):
                     out.append((name, "fire", ("patch", open(pp).read())))
+    bd = os.path.join(VERIF, "seeded-benign")
+    if os.path.isdir(bd):
+        for name in sorted(os.listdir(bd)):
+            mp = os.path.join(bd, name, "meta.json")
+            pp = os.path.join(bd, name, "patch.diff")
+            if os.path.exists(mp) and os.path.exists(pp):
+                meta = json.load(open(mp))
+                if prop not in meta.get("exit2_for", []):
+                    out.append(("benign-" + name, "silent", ("patch", open(pp).read())))
     from selftest import variants
     for v in variants.VARIANTS:
         if prop in v["props"]:
